@@ -287,21 +287,25 @@ type Engine struct {
 	globalFuncInit map[string]*ssa.Function
 	elemKeys  map[string]int      // slice element types seen in type facts -> index of their okslice_<k> predicate
 	elemTypes []types.Type
+	elemNames []string            // content-based suffix of okslice_<name>, parallel to elemTypes
 	structTags []int              // tags of the named struct types registered at load time (deterministic order)
 }
 
 // elemIndex registers a slice element type and returns the index of its backing-object predicate.
-func (e *Engine) elemIndex(el types.Type) int {
+func (e *Engine) elemIndex(el types.Type) string {
 	e.mu.Lock()
 	defer e.mu.Unlock()
 	k := typeKey(el)
-	if i, ok := e.elemKeys[k]; ok {
-		return i
+	// content-based name: the script of a function must not depend on which other functions were translated before it
+	h := sha1.Sum([]byte(k))
+	name := fmt.Sprintf("%x", h[:5])
+	if _, ok := e.elemKeys[k]; ok {
+		return name
 	}
-	i := len(e.elemTypes)
-	e.elemKeys[k] = i
+	e.elemKeys[k] = len(e.elemTypes)
 	e.elemTypes = append(e.elemTypes, el)
-	return i
+	e.elemNames = append(e.elemNames, name)
+	return name
 }
 
 // typeContains: does a value of type t hold (by value: fields, array elements) a cell of type el?
@@ -1039,7 +1043,7 @@ func (t *tr) typeFacts(guard, term string, ty types.Type) {
 		if !t.eng.arrayElem[types.TypeString(u.Elem(), nil)] {
 			t.assume(guard, fmt.Sprintf("(=> (> (scap %s) 0) (= (styp %s) %d))", term, term, t.eng.sliceTag(ty)))
 		} else {
-			t.assume(guard, fmt.Sprintf("(=> (> (scap %s) 0) (okslice_%d (styp %s)))", term, t.eng.elemIndex(u.Elem()), term))
+			t.assume(guard, fmt.Sprintf("(=> (> (scap %s) 0) (okslice_%s (styp %s)))", term, t.eng.elemIndex(u.Elem()), term))
 		}
 	case *types.Map, *types.Chan:
 		t.assume(guard, fmt.Sprintf("(>= %s 0)", term))
@@ -1441,7 +1445,24 @@ func (t *tr) contractFor(cc *ssa.CallCommon) *FuncSpec {
 			return t.eng.specs.Funcs[o.String()]
 		}
 	}
+	if k := funcValueKey(cc); k != "" {
+		return t.eng.specs.Funcs[k]
+	}
 	return nil
+}
+
+// funcValueKey: for a call of a value of a NAMED function type (not a static callee, not an interface method), the key
+// under which an assumed contract for all values of that type may be given ("funcvalue \"pkg.Type\"(params) (results)").
+func funcValueKey(cc *ssa.CallCommon) string {
+	if cc.IsInvoke() || cc.StaticCallee() != nil {
+		return ""
+	}
+	if n, ok := cc.Value.Type().(*types.Named); ok {
+		if _, isSig := n.Underlying().(*types.Signature); isSig {
+			return "funcvalue:" + types.TypeString(n, nil)
+		}
+	}
+	return ""
 }
 
 // ---------------------------------------------------------------- main walk
